@@ -4,11 +4,11 @@
 # usage: tools/try_mutants.sh C04 C05 ...      (no arguments: all seeded changes)
 cd /verif || exit 2
 wt=${WT:-/tmp/rmk_mut_wt}
-[ $# -eq 0 ] && set -- $(ls seeded | sed 's/[A-T]$//' | sort -u)
+[ $# -eq 0 ] && set -- $(ls seeded | sed 's/[A-V]$//' | sort -u)
 git -C /repo worktree remove --force $wt 2>/dev/null
 git -C /repo worktree add -q --detach $wt HEAD || exit 2
 for pid in "$@"; do
-  for m in ${VARIANTS:-A B C D E F G H I J K L M N O P Q R S T}; do
+  for m in ${VARIANTS:-A B C D E F G H I J K L M N O P Q R S T U V}; do
     f=/verif/seeded/$pid$m/patch.diff
     [ -f "$f" ] || continue
     if grep -q '"status": "neutralised"' /verif/seeded/$pid$m/meta.json 2>/dev/null; then echo "$pid$m NEUTRALISED (see meta.json)"; continue; fi
